@@ -1,5 +1,16 @@
 import GtirbProofs.Lemmas.CacheProofs
-/-! Property C03: the per-IR UUID table always equals the scan. -/
+/-! Property C03: the per-IR UUID table always equals the scan.
+
+`ir.get_by_uuid(u)` returns node `n` iff `n` is attached to `ir` (through containment) and
+`n.uuid == u`; independently for every IR; after any sequence of operations; under the hypothesis
+that the UUIDs of the nodes attached to one IR at the same time are pairwise distinct.
+
+The hypothesis speaks about *every moment*. `Distinct g`/`Distinct g'` (before and after an
+operation) is enough for every operation except `^=` (`Op.ixor`), which mixes detaching and attaching
+of different nodes in one loop: `C03_ixor_counterexample` below. For `Op.ixor` the intermediate
+moments are demanded explicitly (`DistinctFine`). The `KeyError` of `del cache[uuid]` is excluded from
+the pre-state alone for every operation that attaches at most one subtree; for the loops
+`update/extend/ixor` it needs the intermediate moments as well (`C03_update_keyerror_example`). -/
 namespace Gtirb.Forest
 
 theorem C03_init : CacheInv ({} : G) := by
@@ -32,5 +43,198 @@ theorem C03_no_leak (g : G) (hc : CacheInv g) (i j u x : Nat) (h : getByUuid g i
     (hj : irOf g x = some j) : j = i := by
   have := ((hc i u x).1 h).2.2.2.1
   rw [hj] at this; exact Option.some.inj this
+
+/-- one public operation keeps the table exact; all operations, with the hypothesis also at the
+moments inside the multi-attach loops (`DistinctFine`, `True` for all but `update/extend/ixor`) -/
+theorem C03_step_fine (g g' : G) (op : Op) (hf : ForestInv g) (hc : CacheInv g)
+    (hd : Distinct g) (hd' : Distinct g') (hop : OpOK g op) (hfine : DistinctFine g op)
+    (hs : step g op = .ok g') : CacheInv g' := by
+  rcases cache_step_good g op hf hc hd hop hfine with ⟨g1, h1, h2⟩ | ⟨e, he, _⟩
+  · rw [h1] at hs; cases hs; exact h2 hd'
+  · rw [he] at hs; cases hs
+
+/-- one public operation keeps the table exact: every operation except `^=`, from distinctness
+before and after the operation only.
+(Intended full statement, without `hx`, is false for `Op.ixor`: `C03_ixor_counterexample`.) -/
+theorem C03_step_partial (g g' : G) (op : Op) (hf : ForestInv g) (_hf' : ForestInv g') (hc : CacheInv g)
+    (hd : Distinct g) (hd' : Distinct g') (hop : OpOK g op) (hx : cacheNotIxor op = true)
+    (hs : step g op = .ok g') : CacheInv g' :=
+  C03_step_fine g g' op hf hc hd hd' hop (cache_distinctFine_of_ends hf hd hd' hop hs hx) hs
+
+/-- `^=`: the table stays exact if the UUIDs are distinct at every moment of the loop -/
+theorem C03_step_ixor (g g' : G) (p : Nat) (s : Slot) (vs : List Nat) (hf : ForestInv g) (hc : CacheInv g)
+    (hd' : Distinct g') (hop : OpOK g (.ixor p s vs))
+    (hfold : cache_DistinctFold (cache_ixorStep p s) g vs)
+    (hs : step g (.ixor p s vs) = .ok g') : CacheInv g' := by
+  rcases cache_step_ixor hf hc hop hfold with ⟨g1, h1, h2⟩ | ⟨e, he, _⟩
+  · rw [h1] at hs; cases hs; exact h2 hd'
+  · rw [he] at hs; cases hs
+
+/-- `^=` with the hypothesis in the other formulation: the UUIDs are distinct in the state reached
+after every proper prefix of the loop (and after the whole loop: `hd'`) -/
+theorem C03_step_ixor_prefixes (g g' : G) (p : Nat) (s : Slot) (vs : List Nat) (hf : ForestInv g)
+    (hc : CacheInv g) (hd' : Distinct g') (hop : OpOK g (.ixor p s vs))
+    (hpre : ∀ vs' gk, vs' <+: vs → vs' ≠ vs → foldE (cache_ixorStep p s) vs' g = .ok gk → Distinct gk)
+    (hs : step g (.ixor p s vs) = .ok g') : CacheInv g' :=
+  C03_step_ixor g g' p s vs hf hc hd' hop (cache_distinctFold_of_prefixes vs g hpre) hs
+
+/-- the `KeyError` of `del cache[uuid]` is never raised; all operations, hypothesis also inside the loops -/
+theorem C03_no_cache_keyerror_fine (g : G) (op : Op) (hf : ForestInv g) (hc : CacheInv g) (hd : Distinct g)
+    (hop : OpOK g op) (hfine : DistinctFine g op) : step g op ≠ .error .cacheKeyError := by
+  rcases cache_step_good g op hf hc hd hop hfine with ⟨g1, h1, _⟩ | ⟨e, he, hne⟩
+  · rw [h1]; intro h; cases h
+  · rw [he]; intro h; cases h; exact hne rfl
+
+/-- the `KeyError` of `del cache[uuid]` is never raised, from the pre-state alone: every operation
+that attaches at most one subtree (all but `update/extend/ixor`).
+(Intended full statement, without `h1`, is false: `C03_update_keyerror_example`.) -/
+theorem C03_no_cache_keyerror_partial (g : G) (op : Op) (hf : ForestInv g) (hc : CacheInv g)
+    (hd : Distinct g) (hop : OpOK g op) (h1 : cacheSingleAttach op = true) :
+    step g op ≠ .error .cacheKeyError :=
+  C03_no_cache_keyerror_fine g op hf hc hd hop (cache_distinctFine_single h1)
+
+/-- generalised history theorem (any start state) -/
+theorem C03_history_from (ops : List Op) : ∀ (g : G), CacheInv g → OpsOK g ops → DistinctAlongFine g ops →
+    (∀ (pre : List Op), pre <+: ops → ForestInv (run g pre)) → CacheInv (run g ops) := by
+  induction ops with
+  | nil => intro g hc _ _ _; exact hc
+  | cons op ops ih =>
+    intro g hc hops hd hforest
+    obtain ⟨hop, hops'⟩ := hops
+    obtain ⟨hdg, hfine, hd'⟩ := hd
+    have hf : ForestInv g := hforest [] (List.nil_prefix)
+    show CacheInv (run (match step g op with | .ok g' => g' | .error _ => g) ops)
+    have hd1 : Distinct (match step g op with | .ok g' => g' | .error _ => g) := by
+      cases ops with
+      | nil => exact hd'
+      | cons _ _ => exact hd'.1
+    apply ih _ _ hops' hd'
+    · intro pre hpre
+      have := hforest (op :: pre) (List.cons_prefix_cons.2 ⟨rfl, hpre⟩)
+      exact this
+    · cases hs : step g op with
+      | error e => exact hc
+      | ok g' =>
+        rw [hs] at hd1
+        exact C03_step_fine g g' op hf hc hdg hd1 hop hfine hs
+
+/-- every reachable state, given that the forest invariant holds along the history (C04) and the
+UUIDs are distinct at every moment (`DistinctAlongFine` = `DistinctAlong` plus the moments inside
+`update/extend/ixor`) -/
+theorem C03_history_fine (ops : List Op) (hops : OpsOK {} ops) (hd : DistinctAlongFine {} ops)
+    (hforest : ∀ (pre : List Op), pre <+: ops → ForestInv (run {} pre)) : CacheInv (run {} ops) :=
+  C03_history_from ops {} C03_init hops hd hforest
+
+/-- generalised partial history theorem (any start state) -/
+theorem C03_history_partial_from (ops : List Op) : ∀ (g : G), CacheInv g → OpsOK g ops → DistinctAlong g ops →
+    (∀ op, op ∈ ops → cacheNotIxor op = true) →
+    (∀ (pre : List Op), pre <+: ops → ForestInv (run g pre)) → CacheInv (run g ops) := by
+  induction ops with
+  | nil => intro g hc _ _ _ _; exact hc
+  | cons op ops ih =>
+    intro g hc hops hd hx hforest
+    obtain ⟨hop, hops'⟩ := hops
+    obtain ⟨hdg, hd'⟩ := hd
+    have hf : ForestInv g := hforest [] (List.nil_prefix)
+    have hf1 : ForestInv (match step g op with | .ok g' => g' | .error _ => g) :=
+      hforest [op] (List.cons_prefix_cons.2 ⟨rfl, List.nil_prefix⟩)
+    show CacheInv (run (match step g op with | .ok g' => g' | .error _ => g) ops)
+    have hd1 : Distinct (match step g op with | .ok g' => g' | .error _ => g) := by
+      cases ops with
+      | nil => exact hd'
+      | cons _ _ => exact hd'.1
+    apply ih _ _ hops' hd' (fun o ho => hx o (List.mem_cons_of_mem _ ho))
+    · intro pre hpre
+      exact hforest (op :: pre) (List.cons_prefix_cons.2 ⟨rfl, hpre⟩)
+    · cases hs : step g op with
+      | error e => exact hc
+      | ok g' =>
+        rw [hs] at hd1 hf1
+        exact C03_step_partial g g' op hf hf1 hc hdg hd1 hop (hx op List.mem_cons_self) hs
+
+/-- every reachable state of a history without `^=`, from `DistinctAlong` (distinctness between the
+operations) and the forest invariant along the history (C04).
+(Intended full statement, without `hx`, is false: `C03_ixor_counterexample`.) -/
+theorem C03_history_partial (ops : List Op) (hops : OpsOK {} ops) (hd : DistinctAlong {} ops)
+    (hx : ∀ op, op ∈ ops → cacheNotIxor op = true)
+    (hforest : ∀ (pre : List Op), pre <+: ops → ForestInv (run {} pre)) : CacheInv (run {} ops) :=
+  C03_history_partial_from ops {} C03_init hops hd hx hforest
+
+/-! ### why the hypotheses cannot be weakened: concrete states -/
+
+/-- decidable check of `Distinct` -/
+def cacheDistinctB (g : G) : Bool :=
+  (List.range g.n).all fun a => (List.range g.n).all fun b =>
+    (irOf g a).isNone || irOf g a != irOf g b || g.uuid a != g.uuid b || a == b
+
+theorem cacheDistinctB_sound {g : G} (h : cacheDistinctB g = true) : Distinct g := by
+  intro a b i ha hb hia hib hab
+  unfold cacheDistinctB at h
+  rw [List.all_eq_true] at h
+  have h1 := h a (List.mem_range.2 ha)
+  rw [List.all_eq_true] at h1
+  have h2 := h1 b (List.mem_range.2 hb)
+  simp [hia, hib, hab] at h2
+  exact h2
+
+def cacheIsOk : Except Exc G → Bool
+  | .ok _ => true
+  | .error _ => false
+
+def cacheIsKeyError : Except Exc G → Bool
+  | .error .cacheKeyError => true
+  | _ => false
+
+/-- IR 0, module 1, symbol 2 (uuid 5) in the module, symbol 3 (uuid 5) detached -/
+def cacheCexOps : List Op :=
+  [.mkIR 100, .mk .module 101 [] (some 0), .mkSym 5 0 .none (some 1), .mkSym 5 0 .none none]
+
+/-- `syms ^= {3, 2}` iterated as 3, 2: the UUIDs are distinct before and after, the operation
+succeeds, yet afterwards node 3 is attached to IR 0 with uuid 5 and `get_by_uuid(5)` finds nothing.
+Between the two steps both symbols with uuid 5 are in the IR: the property's hypothesis is violated at
+that moment, which `Distinct` before/after does not see. -/
+theorem C03_ixor_counterexample :
+    let g := run {} cacheCexOps
+    let op := Op.ixor 1 .syms [3, 2]
+    let g' := run g [op]
+    cacheIsOk (step g op) = true ∧ OpOK g op ∧ Distinct g ∧ Distinct g' ∧
+      getByUuid g 0 5 = some 2 ∧ getByUuid g' 0 5 = none ∧ irOf g' 3 = some 0 ∧ g'.uuid 3 = 5 ∧
+      ¬ CacheInv g' := by
+  intro g op g'
+  have h1 : cacheIsOk (step g op) = true := by decide
+  have h2 : OpOK g op := by
+    refine ⟨by decide, by decide, ?_⟩
+    intro v hv
+    have : v = 3 ∨ v = 2 := by simpa using hv
+    rcases this with rfl | rfl <;> exact ⟨by decide, by decide, by decide, by decide⟩
+  have h3 : Distinct g := cacheDistinctB_sound (by decide)
+  have h4 : Distinct g' := cacheDistinctB_sound (by decide)
+  have h5 : getByUuid g 0 5 = some 2 := by decide
+  have h6 : getByUuid g' 0 5 = none := by decide
+  have h7 : irOf g' 3 = some 0 := by decide
+  have h8 : g'.uuid 3 = 5 := by decide
+  refine ⟨h1, h2, h3, h4, h5, h6, h7, h8, ?_⟩
+  intro hc
+  have := (hc 0 5 3).2 ⟨by decide, by decide, by decide, h7, h8⟩
+  rw [show g'.cache 0 5 = none from h6] at this
+  cases this
+
+/-- the same state, `syms ^= [3, 2, 3]`: the `KeyError` of `del cache[uuid]` -/
+theorem C03_ixor_keyerror_example :
+    cacheIsKeyError (step (run {} cacheCexOps) (.ixor 1 .syms [3, 2, 3])) = true := by decide
+
+/-- a detached section 4 that holds two intervals with equal UUIDs; `secs.update([4, 4])` on a module
+inside an IR raises the `KeyError` although the UUIDs are distinct in the state before (nothing of
+the section is attached); `secs.update([4])` is fine -/
+def cacheCexOps2 : List Op :=
+  [.mkIR 100, .mk .module 101 [] (some 0), .mk .interval 7 [] none, .mk .interval 7 [] none,
+   .mk .section 8 [(.bis, [2, 3])] none]
+
+theorem C03_update_keyerror_example :
+    let g := run {} cacheCexOps2
+    Distinct g ∧ cacheIsKeyError (step g (.update 1 .secs [4, 4])) = true ∧
+      cacheIsOk (step g (.update 1 .secs [4])) = true := by
+  intro g
+  exact ⟨cacheDistinctB_sound (by decide), by decide, by decide⟩
 
 end Gtirb.Forest
